@@ -550,6 +550,7 @@ impl Sim {
                 belief,
                 max_spread,
                 to,
+                from,
             } => {
                 let hook = to_binary(&haloswap::pair::Cw20HookMsg::Swap {
                     offer_asset: self.asset(offer)?,
@@ -560,15 +561,30 @@ impl Sim {
                 .unwrap();
                 let pair_addr = pair_addr(pair)?;
                 match via {
-                    Via::Cw20(a) => vec![Self::wasm_exec(
-                        &m.cw20_addr(a).ok_or("hook via non-cw20")?,
-                        &Cw20ExecuteMsg::Send {
-                            contract: pair_addr,
-                            amount: *sent,
-                            msg: hook,
-                        },
-                        vec![],
-                    )],
+                    Via::Cw20(a) => {
+                        let token = m.cw20_addr(a).ok_or("hook via non-cw20")?;
+                        match from {
+                            None => vec![Self::wasm_exec(
+                                &token,
+                                &Cw20ExecuteMsg::Send {
+                                    contract: pair_addr,
+                                    amount: *sent,
+                                    msg: hook,
+                                },
+                                vec![],
+                            )],
+                            Some(owner) => vec![Self::wasm_exec(
+                                &token,
+                                &Cw20ExecuteMsg::SendFrom {
+                                    owner: m.addr(owner).ok_or("dangling owner")?,
+                                    contract: pair_addr,
+                                    amount: *sent,
+                                    msg: hook,
+                                },
+                                vec![],
+                            )],
+                        }
+                    }
                     Via::Rogue => vec![Self::wasm_exec(
                         &m.rogue,
                         &RogueExec::Forward {
